@@ -320,26 +320,45 @@ func c19AmountsString(per map[int]map[string]int64) string {
 //   - the Node field of an allocatedResources entry is never read by the code (the map key is used) and is left out
 //     (counted as a diagnostic when it differs from the key);
 //   - empty idle/single/shared NUMA sets equal absent ones.
+type c19PodRec struct{ ident, cpus, excl, numa string }
+
 type c19View struct {
-	Pods, CPUs, Marks, Amounts, Status string
+	Pods    map[string]c19PodRec
+	CPUs    map[int]string
+	Marks   map[int]string
+	Amounts string
+	Status  string
 }
 
 func (v c19View) String() string {
-	return "pods:\n" + v.Pods + "cpus:\n" + v.CPUs + "marks:\n" + v.Marks + "numa amounts: " + v.Amounts + "\nnuma status:\n" + v.Status
+	var sb strings.Builder
+	sb.WriteString("pods:\n")
+	uids := make([]string, 0, len(v.Pods))
+	for uid := range v.Pods {
+		uids = append(uids, uid)
+	}
+	sort.Strings(uids)
+	for _, uid := range uids {
+		p := v.Pods[uid]
+		fmt.Fprintf(&sb, " %s (%s) cpus=%s excl=%q numa=%s\n", uid, p.ident, p.cpus, p.excl, p.numa)
+	}
+	sb.WriteString("cpus:\n")
+	ids := make([]int, 0, len(v.CPUs))
+	for id := range v.CPUs {
+		ids = append(ids, id)
+	}
+	sort.Ints(ids)
+	for _, id := range ids {
+		fmt.Fprintf(&sb, " cpu %d %s excl=%q\n", id, v.CPUs[id], v.Marks[id])
+	}
+	return sb.String() + "numa amounts: " + v.Amounts + "\nnuma status:\n" + v.Status
 }
 
 func c19Render(na *NodeAllocation) c19View {
 	na.lock.RLock()
 	defer na.lock.RUnlock()
-	var v c19View
-	var sb strings.Builder
-	uids := make([]string, 0, len(na.allocatedPods))
-	for uid := range na.allocatedPods {
-		uids = append(uids, string(uid))
-	}
-	sort.Strings(uids)
-	for _, uid := range uids {
-		p := na.allocatedPods[types.UID(uid)]
+	v := c19View{Pods: map[string]c19PodRec{}, CPUs: map[int]string{}, Marks: map[int]string{}}
+	for uid, p := range na.allocatedPods {
 		per := map[int]map[string]int64{}
 		for _, r := range p.NUMANodeResources {
 			if per[r.Node] == nil {
@@ -347,23 +366,14 @@ func c19Render(na *NodeAllocation) c19View {
 			}
 			c19Amounts(r.Resources, per[r.Node])
 		}
-		fmt.Fprintf(&sb, " %s (uid field %s, %s/%s) cpus=%v excl=%q numa=%s\n", uid, p.UID, p.Namespace, p.Name, p.CPUSet.ToSlice(), p.CPUExclusivePolicy, c19AmountsString(per))
+		v.Pods[string(uid)] = c19PodRec{ident: fmt.Sprintf("uid field %s, %s/%s", p.UID, p.Namespace, p.Name), cpus: fmt.Sprint(p.CPUSet.ToSlice()),
+			excl: string(p.CPUExclusivePolicy), numa: c19AmountsString(per)}
 	}
-	v.Pods = sb.String()
-	sb.Reset()
-	ids := make([]int, 0, len(na.allocatedCPUs))
-	for id := range na.allocatedCPUs {
-		ids = append(ids, id)
+	for id, info := range na.allocatedCPUs {
+		v.CPUs[id] = fmt.Sprintf("(id field %d core %d node %d socket %d) rc=%d", info.CPUID, info.CoreID, info.NodeID, info.SocketID, info.RefCount)
+		v.Marks[id] = string(info.ExclusivePolicy)
 	}
-	sort.Ints(ids)
-	var mb strings.Builder
-	for _, id := range ids {
-		info := na.allocatedCPUs[id]
-		fmt.Fprintf(&sb, " cpu %d (id field %d core %d node %d socket %d) rc=%d\n", id, info.CPUID, info.CoreID, info.NodeID, info.SocketID, info.RefCount)
-		fmt.Fprintf(&mb, " cpu %d excl=%q\n", id, info.ExclusivePolicy)
-	}
-	v.CPUs, v.Marks = sb.String(), mb.String()
-	sb.Reset()
+	var sb strings.Builder
 	per := map[int]map[string]int64{}
 	for node, r := range na.allocatedResources {
 		if r == nil {
